@@ -508,9 +508,25 @@ func (vc *VC) selectField(env *Env, x *Val, name string) *Val {
 		}
 		st := cur.T.Underlying().(*types.Struct)
 		l := layoutOf(cur.T)
-		cur = vc.load(cur.H, l.FL[fi], st.Field(fi).Type(), cur.C[0], bvBin("bvadd", cur.C[1], off64(l.Fields[fi])))
+		hh := cur.H
+		cur = vc.load(hh, l.FL[fi], st.Field(fi).Type(), cur.C[0], bvBin("bvadd", cur.C[1], off64(l.Fields[fi])))
+		vc.specLoadedWF(cur, hh)
 	}
 	return cur
+}
+
+// specLoadedWF: heap invariant for reference-like values read in a spec expression (every reference
+// stored in a heap is below that heap's allocation counter). Only for closed terms.
+func (vc *VC) specLoadedWF(v *Val, h *Heap) {
+	switch v.K {
+	case KPtr, KSlice, KString, KIface:
+		for _, c := range v.C {
+			if strings.Contains(c, "!") {
+				return
+			}
+		}
+		vc.assume(vc.wfTerm(v, h))
+	}
 }
 
 func namedOf(t types.Type) *types.Named {
